@@ -77,6 +77,13 @@ inductive Ev where
   | setEn (k : Nat) (endA : Bool) (v : Bool)
   /-- the same for wireless interface `i` of channel `c`. -/
   | wsetEn (c : Nat) (i : Nat) (v : Bool)
+  /-- a wired `send_frame` that **never returned**: the frame was admitted, its size reserved, the frame handed to the far
+  interface, `nested` happened while the far node was processing it, and then an exception unwound through
+  `Link.transmit_frame` (raised anywhere below; it may be caught further up, or reach the caller of the whole action).
+  Nothing releases the reservation.  If the frame is not admitted this is an ordinary refused send. -/
+  | lost (k : Nat) (fromA : Bool) (s : Nat) (nested : List Ev)
+  /-- the same for a wireless send: an exception unwound through `AirSpace.transmit`. -/
+  | wlost (c : Nat) (i : Nat) (s : Nat) (nested : List Ev)
 
 inductive Verdict where
   | nolink     -- no such link / interface (malformed input; the implementation cannot express it)
@@ -85,11 +92,18 @@ inductive Verdict where
   | full       -- `can_transmit_frame`: load + size > bandwidth; dropped at the sender
   | rejected   -- handed to the far interface, which answered False; reservation released
   | carried    -- handed to the far interface, which took it
+  | lost       -- handed to the far interface; an exception unwound through the delivery; the reservation stays
 deriving Repr, DecidableEq
 
 /-- The frame was handed to a receiving interface. -/
 def Verdict.crossed : Verdict → Bool
-  | .rejected | .carried => true
+  | .rejected | .carried | .lost => true
+  | _ => false
+
+/-- The frame's size stays on the load of the link / channel: it was taken by the far interface, or the delivery was cut short
+by an exception after the hand-over. -/
+def Verdict.loaded : Verdict → Bool
+  | .carried | .lost => true
   | _ => false
 
 /-- One record per `send_frame` call, appended when the call returns. -/
@@ -193,6 +207,49 @@ def runEv (n : Net) : Ev → Net × List Rec
     match n.chans[c]? with
     | none => (n, [])
     | some ch => ({ n with chans := n.chans.set c { ch with en := ch.en.set i v } }, [])
+  | .lost k fromA s nested =>
+    match n.links[k]? with
+    | none => (n, [{ wireless := false, k, verdict := .nolink, enS := false, enR := false, rcv := [], size := 0,
+                     loadBefore := 0, load := 0, bw := 0, capS := 0 }])
+    | some l =>
+      let enS := if fromA then l.enA else l.enB
+      let enR := if fromA then l.enB else l.enA
+      let stay (v : Verdict) : Net × List Rec :=
+        (n, [{ wireless := false, k, verdict := v, enS, enR, rcv := [], size := s, loadBefore := l.load,
+               load := l.load, bw := l.bw, capS := l.bw }])
+      if !enS then stay .disabled
+      else if !l.isUp then stay .down
+      else if !admits l.load s l.bw then stay .full
+      else
+        -- reserved, handed over, `nested` ran, then the exception passed: no release, the record is written at that moment
+        let n1 : Net := { n with links := n.links.set k { l with load := l.load + s } }
+        let r := runEvs n1 nested
+        (r.1, r.2 ++ [{ wireless := false, k, verdict := .lost, enS, enR, rcv := [], size := s,
+                        loadBefore := l.load, load := loadOf r.1 k, bw := bwOf r.1 k, capS := l.bw }])
+  | .wlost c i s nested =>
+    match n.chans[c]? with
+    | none => (n, [{ wireless := true, k := c, verdict := .nolink, enS := false, enR := false, rcv := [], size := 0,
+                     loadBefore := 0, load := 0, bw := 0, capS := 0 }])
+    | some ch =>
+      match ch.en[i]? with
+      | none => (n, [{ wireless := true, k := c, verdict := .nolink, enS := false, enR := false, rcv := [], size := 0,
+                       loadBefore := ch.load, load := ch.load, bw := ch.cap, capS := 0 }])
+      | some enS =>
+        match ch.caps[i]? with
+        | none => (n, [{ wireless := true, k := c, verdict := .nolink, enS := false, enR := false, rcv := [], size := 0,
+                         loadBefore := ch.load, load := ch.load, bw := ch.cap, capS := 0 }])
+        | some capI =>
+          let stay (v : Verdict) : Net × List Rec :=
+            (n, [{ wireless := true, k := c, verdict := v, enS, enR := false, rcv := [], size := s,
+                   loadBefore := ch.load, load := ch.load, bw := ch.cap, capS := capI }])
+          if !enS then stay .disabled
+          else if !admits ch.load s capI then stay .full
+          else
+            let n1 : Net := { n with chans := n.chans.set c { ch with load := ch.load + s } }
+            let rcv := receivers ch.en i
+            let r := runEvs n1 nested
+            (r.1, r.2 ++ [{ wireless := true, k := c, verdict := .lost, enS, enR := true, rcv, size := s,
+                            loadBefore := ch.load, load := cloadOf r.1 c, bw := capOf r.1 c, capS := capI }])
 
 def runEvs (n : Net) : List Ev → Net × List Rec
   | [] => (n, [])
@@ -207,14 +264,40 @@ def tick (n : Net) : Net :=
   { links := n.links.map (fun l => { l with load := 0 }),
     chans := n.chans.map (fun c => { c with load := 0 }) }
 
+/-- `link.bandwidth = v` (a plain attribute of `Link`; no code of the simulator assigns it after construction, a user's script
+can). -/
+def setBw (n : Net) (k v : Nat) : Net :=
+  match n.links[k]? with
+  | none => n
+  | some l => { n with links := n.links.set k { l with bw := v } }
+
+/-- `AirSpace.set_frequency_max_capacity_mbps` as far as interface `i` of channel `c` is concerned: the capacity of the frequency
+name it uses becomes `v` (a change of one name = one such step per interface using the name).  Called by
+`PrimaiteGame.from_config` before any node exists; a user's script can call it at any time between actions. -/
+def setCap (n : Net) (c i v : Nat) : Net :=
+  match n.chans[c]? with
+  | none => n
+  | some ch => { n with chans := n.chans.set c { ch with caps := ch.caps.set i v } }
+
 /-- Top-level operations of an episode. -/
 inductive Op where
   | tick
   | act (evs : List Ev)
+  /-- the bandwidth of wired link `k` is changed (between two actions, possibly in the middle of a tick) -/
+  | setBw (k v : Nat)
+  /-- the capacity interface `i` of channel `c` is admitted against is changed -/
+  | setCap (c i v : Nat)
+
+/-- The operation changes a capacity. -/
+def Op.isCap : Op → Bool
+  | .setBw .. | .setCap .. => true
+  | _ => false
 
 def step (n : Net) : Op → Net × List Rec
   | .tick => (tick n, [])
   | .act evs => runEvs n evs
+  | .setBw k v => (setBw n k v, [])
+  | .setCap c i v => (setCap n c i v, [])
 
 /-- Run a whole history; all records in order. -/
 def run (n : Net) : List Op → Net × List Rec
